@@ -8,7 +8,7 @@ open SaphyrModel SaphyrModel.Sc
 variable [inst : Bespoke]
 include inst
 macro_rules | `(tactic| rel_close) => `(tactic| first
-    | exact Bespoke.line _ | exact Bespoke.indent _ _ _ _ | exact Bespoke.chunks _ _ _)
+    | exact line_rel _ | exact Bespoke.indent _ _ _ _ | exact plainChunks_rel _ _ _)
 
 set_option maxHeartbeats 4000000 in
 theorem RelS.readBreak (acc : Str) : RelS (readBreak acc) (readBreak acc) := by
@@ -48,5 +48,49 @@ theorem RelS.blockScalarLines (literal : Bool) (indent : Nat) : ∀ (f1 f2 : Nat
     | zero => unfold Sc.blockScalarLines; exact RelS.panicR _ _
     | succ n2 => unfold Sc.blockScalarLines; rel
 macro_rules | `(tactic| rel_close) => `(tactic| exact RelS.blockScalarLines _ _ _ _ _)
+set_option maxHeartbeats 4000000 in
+theorem RelS.blockHeaderDigit (startMark : Marker) (ch : Chomping) : RelS (blockHeaderDigit startMark ch) (blockHeaderDigit startMark ch) := by
+  unfold Sc.blockHeaderDigit; rel
+macro_rules | `(tactic| rel_close) => `(tactic| exact RelS.blockHeaderDigit _ _)
+set_option maxHeartbeats 4000000 in
+theorem RelS.blockHeaderChomp (d : Char) : RelS (blockHeaderChomp d) (blockHeaderChomp d) := by
+  unfold Sc.blockHeaderChomp; rel
+macro_rules | `(tactic| rel_close) => `(tactic| exact RelS.blockHeaderChomp _)
+set_option maxHeartbeats 4000000 in
+theorem RelS.blockHeader (startMark : Marker) (c : Char) (isDigit : Bool) : RelS (blockHeader startMark c isDigit) (blockHeader startMark c isDigit) := by
+  unfold Sc.blockHeader; rel
+macro_rules | `(tactic| rel_close) => `(tactic| exact RelS.blockHeader _ _ _)
+set_option maxHeartbeats 4000000 in
+theorem RelS.blockChompingBreak  : RelS (blockChompingBreak ) (blockChompingBreak ) := by
+  unfold Sc.blockChompingBreak; rel
+macro_rules | `(tactic| rel_close) => `(tactic| exact RelS.blockChompingBreak )
+theorem RelS.blockIndent (increment : Nat) (s : Sc) (j : In) : RelS (blockIndent increment s) (blockIndent increment { s with inp := j }) := by
+  unfold Sc.blockIndent; dsimp only; rel
+macro_rules | `(tactic| rel_close) => `(tactic| exact RelS.blockIndent _ _ _)
+theorem RelS.blockMarkerCheck (indent : Nat) (s : Sc) (j : In) : RelS (blockMarkerCheck indent s) (blockMarkerCheck indent { s with inp := j }) := by
+  unfold Sc.blockMarkerCheck; dsimp only; rel
+macro_rules | `(tactic| rel_close) => `(tactic| exact RelS.blockMarkerCheck _ _ _)
+theorem RelS.blockFinish (chomping : Chomping) (indent : Nat) (a : BlkAcc) (s : Sc) (j : In) : RelS (blockFinish chomping indent a s) (blockFinish chomping indent a { s with inp := j }) := by
+  unfold Sc.blockFinish; dsimp only; rel
+macro_rules | `(tactic| rel_close) => `(tactic| exact RelS.blockFinish _ _ _ _ _)
+theorem RelS.blockContent (literal : Bool) (chomping : Chomping) (indent : Nat) (trailingBreaks : Str) (s : Sc) (j : In) : RelS (blockContent literal chomping indent trailingBreaks s) (blockContent literal chomping indent trailingBreaks { s with inp := j }) := by
+  unfold Sc.blockContent; dsimp only; rel
+macro_rules | `(tactic| rel_close) => `(tactic| exact RelS.blockContent _ _ _ _ _ _)
+set_option maxHeartbeats 4000000 in
+theorem RelS.blockAfterHeader (literal : Bool) (startMark : Marker) (chomping : Chomping) (increment : Nat) (chompingBreak : Str) : RelS (blockAfterHeader literal startMark chomping increment chompingBreak) (blockAfterHeader literal startMark chomping increment chompingBreak) := by
+  unfold Sc.blockAfterHeader; rel
+macro_rules | `(tactic| rel_close) => `(tactic| exact RelS.blockAfterHeader _ _ _ _ _)
+set_option maxHeartbeats 4000000 in
+theorem RelS.scanBlockScalarBody (literal : Bool) (startMark : Marker) : RelS (scanBlockScalarBody literal startMark) (scanBlockScalarBody literal startMark) := by
+  unfold Sc.scanBlockScalarBody; rel
+macro_rules | `(tactic| rel_close) => `(tactic| exact RelS.scanBlockScalarBody _ _)
+set_option maxHeartbeats 4000000 in
+theorem RelS.scanBlockScalar (literal : Bool) : RelS (scanBlockScalar literal) (scanBlockScalar literal) := by
+  unfold Sc.scanBlockScalar; rel
+macro_rules | `(tactic| rel_close) => `(tactic| exact RelS.scanBlockScalar _)
+set_option maxHeartbeats 4000000 in
+theorem RelS.fetchBlockScalar (literal : Bool) : RelS (fetchBlockScalar literal) (fetchBlockScalar literal) := by
+  unfold Sc.fetchBlockScalar; rel
+macro_rules | `(tactic| rel_close) => `(tactic| exact RelS.fetchBlockScalar _)
 
 end SaphyrModel.C10
